@@ -141,6 +141,48 @@ TDVP_OPS = [[], ["reset"], ["step", "reset"], ["step", "step", "reset"], ["run",
             ["step", "reset", "step", "step", "reset"], ["run", "reset", "run", "reset"], ["reset", "step", "reset"]]
 
 
+# operation lists of an object whose CURRENT state (tdvp.state) is later handed to a further object as its initial state
+TDVP_SOURCE_OPS = [["step"], ["step", "step"], ["run"], ["step", "reset", "step"], ["reset", "run"], []]
+PREPARE_HOW = ["canonical_form", "orthogonalize", "move", "move_chain"]
+
+
+def random_prepare(rng, par):
+    """a public preparation of the state BEFORE it is handed to the path finder / a TDVP object: bring it into canonical form
+    with respect to a node (leaves of any depth, inner nodes, the root), directly or by moving the centre there."""
+    n = len(par)
+    inner = {p for p in par if p is not None}
+    leaves = [i for i in range(n) if i not in inner]
+
+    def pick():
+        return rng.choice(leaves) if rng.random() < 0.6 else rng.randrange(n)
+    return {"how": rng.choice(PREPARE_HOW), "node": pick(), "via": [pick() for _ in range(rng.randrange(1, 4))],
+            "mode": rng.choice(["KEEP", "KEEP", "REDUCED"])}
+
+
+def apply_prepare(ttns, prep, ident):
+    """ident: node index -> identifier. canonical_form / orthogonalize at `node`; "move": canonical form at via[0], then
+    move_orthogonalization_center to `node`; "move_chain": ... through all of `via` first."""
+    from pytreenet.util.tensor_splitting import SplitMode
+    mode = getattr(SplitMode, prep["mode"])
+    how = prep["how"]
+    if how == "canonical_form":
+        ttns.canonical_form(ident(prep["node"]), mode=mode)
+    elif how == "orthogonalize":
+        ttns.orthogonalize(ident(prep["node"]), mode=mode)
+    else:
+        ttns.canonical_form(ident(prep["via"][0]), mode=mode)
+        for x in (prep["via"][1:] if how == "move_chain" else []):
+            ttns.move_orthogonalization_center(ident(x), mode=mode)
+        ttns.move_orthogonalization_center(ident(prep["node"]), mode=mode)
+
+
+def depth_profile(par):
+    d = [0] * len(par)
+    for i in range(1, len(par)):
+        d[i] = d[par[i]] + 1      # parents precede children in every generator of this module
+    return d
+
+
 def ordered_children(par, order):
     ch = collections.defaultdict(list)
     for i in order:
@@ -238,7 +280,14 @@ class C17(Prop):
             "traversal sequences; some objects reuse a state/operator already passed to an earlier object; every object is "
             "observed after construction and after every reset_to_initial_state that follows time steps / complete runs / "
             "nothing (sequential or interleaved round robin with all objects alive): tdvp.update_path, keys and block values of "
-            "tdvp.partial_tree_cache; malformed: unknown "
+            "tdvp.partial_tree_cache; prepared-state cases (16 quick / 200 thorough further histories, 12 / 120 further real cases "
+            "on 2-9 nodes): the state is PREPARED by the caller before the path finder / the TDVP object sees it — canonical_form / "
+            "orthogonalize w.r.t. a node (60% a leaf of any depth, else any node incl. inner nodes and the root), or canonical form "
+            "elsewhere followed by one or several move_orthogonalization_center calls, SplitMode KEEP or REDUCED — or it is TAKEN "
+            "OVER from an earlier object of the history (that object's current tdvp.state after time steps / runs without a final "
+            "reset, i.e. an evolution that is continued by a new object; optionally prepared again); for these objects the model is "
+            "evaluated on the ordered tree the library holds at that moment (canonicalisation reorders the children of a node; the "
+            "rooted tree must stay the one of the case), the BFS oracle always on the tree of the case; malformed: unknown "
             "identifiers (both sides must reject). non-trivial = at least 3 nodes; distinct by case content")
     clauses = [
         ("F", "linearise: permutation of the nodes, every child before its parent, root last (C17_linearise_perm, _child_before_parent, _root_last)"),
@@ -268,6 +317,11 @@ class C17(Prop):
               "the object's own tree (exact), BFS oracle (permutation, deepest leaf, end degree, crossings <= 2, exactly one block per edge "
               "toward path[0], no other keys) and every cached block equals a naive einsum contraction of the object's current state and "
               "operator over the subtree behind its edge (relative 1e-8)"),
+        ("V", "the same for states that already carry an orthogonality centre when they reach TDVPUpdatePathFinder / the TDVP constructor "
+              "(canonical form w.r.t. deepest leaves, shallower leaves, inner nodes, the root; centre moved around; both split modes; "
+              "states taken over from an earlier object after time steps): the sweep order and the cache depend on the rooted tree only "
+              "— BFS oracle on the tree of the case, exact tie on the ordered tree the library holds (update_path of the tree handed in, "
+              "cache_keys of the tree the object holds when the cache is built), same rooted tree as an unordered tree"),
     ]
     trusted_base = ["node identifiers are mapped to natural numbers by the harness (the library uses strings); the key order of the node "
                     "dictionary is an explicit input of get_leaves/nearest_neighbours",
@@ -286,7 +340,7 @@ class C17(Prop):
         order = topo_order(rng, par) if shuffle else list(range(n))
         return {"kind": kind, "parents": par, "labels": lab, "attach": order, "pairs": pairs, "centres": centres}
 
-    def _tdvp_history(self, rng, k, nmax):
+    def _tdvp_history(self, rng, k, nmax, prepared=False):
         """several TDVP algorithm objects created (and used: time steps, complete runs, resets) in one process, on trees of
         one size whose identifiers are handed out along one canonical traversal (so the trees share their identifier set
         and e.g. the post-order / pre-order / breadth-first sequence although their shapes differ)."""
@@ -310,8 +364,24 @@ class C17(Prop):
         if rng.random() < 0.35:                  # a further object on a state / operator that was already passed in
             which.append(rng.randrange(len(trees)))
         objs = [{"tree": j, "algo": rng.choice(["tdvp1", "tdvp1", "tdvp2", "tdvp2s"]), "ops": list(rng.choice(TDVP_OPS))} for j in which]
-        return {"kind": "tdvp", "scheme": scheme, "trees": trees, "objects": objs, "interleave": rng.random() < 0.3,
-                "seed": rng.randrange(10 ** 6)}
+        if prepared:
+            # states that were PREPARED by the caller before the object is built (canonical form w.r.t. some node, centre moved
+            # around) and states TAKEN OVER from an earlier object of the history (its current tdvp.state, after time steps)
+            for o in objs:
+                if rng.random() < 0.7:
+                    o["prepare"] = random_prepare(rng, pars[o["tree"]])
+            for _ in range(rng.choice([0, 1, 1, 2])):
+                src = rng.randrange(len(objs))
+                if "from" not in objs[src]:
+                    objs[src]["ops"] = list(rng.choice(TDVP_OPS)) + list(rng.choice(TDVP_SOURCE_OPS))
+                o = {"tree": objs[src]["tree"], "algo": rng.choice(["tdvp1", "tdvp1", "tdvp2", "tdvp2s"]),
+                     "ops": list(rng.choice(TDVP_OPS)), "from": src}
+                if rng.random() < 0.25:
+                    o["prepare"] = random_prepare(rng, pars[o["tree"]])
+                objs.append(o)
+        # (a taken-over state is only interesting after its source has evolved: those histories run object after object)
+        return {"kind": "tdvp", "scheme": scheme, "trees": trees, "objects": objs,
+                "interleave": rng.random() < 0.3 and not any("from" in o for o in objs), "seed": rng.randrange(10 ** 6)}
 
     def generate(self, ctx, stream, budget_scale=1):
         rng = ctx.rng(stream)
@@ -346,6 +416,13 @@ class C17(Prop):
         # histories of TDVP objects (several objects in one process, run / reset on a reused object)
         for k in range(ctx.scale(40, 300) * budget_scale):
             cases.append(self._tdvp_history(rng, k, ctx.scale(7, 9)))
+        # ... on states prepared by the caller (canonical forms) / taken over from an earlier object; prepared real cases
+        for k in range(ctx.scale(16, 200) * budget_scale):
+            cases.append(self._tdvp_history(rng, k, ctx.scale(7, 9), prepared=True))
+        for k in range(ctx.scale(12, 120) * budget_scale):
+            n = rng.randrange(2, 10)
+            par = random_parents_shaped(rng, n, shapes[k % len(shapes)])
+            cases.append({"kind": "real", "parents": par, "seed": rng.randrange(10 ** 6), "prepare": random_prepare(rng, par)})
         # malformed: unknown identifiers
         for k in range(ctx.scale(6, 20)):
             n = rng.randrange(1, 8)
@@ -376,6 +453,11 @@ class C17(Prop):
                 c["tdvp:interleaved"] += bool(x["interleave"])
                 for o in x["objects"]:
                     c["tdvp:algo-" + o["algo"]] += 1
+                    if "from" in o:
+                        c["tdvp:objects-on-the-current-state-of-an-earlier-object"] += 1
+                        c["tdvp:...-whose-source-evolved-without-a-final-reset"] += (x["objects"][o["from"]]["ops"] or ["reset"])[-1] != "reset"
+                    if o.get("prepare"):
+                        self._count_prepare(c, "tdvp", o["prepare"], x["trees"][o["tree"]]["parents"])
                     c["tdvp:cache-observations-after-reset"] += o["ops"].count("reset")
                     c["tdvp:resets-after-evolution"] += sum(1 for a, b in zip(o["ops"], o["ops"][1:]) if b == "reset" and a != "reset")
                 tr = x["trees"]
@@ -386,11 +468,23 @@ class C17(Prop):
                 c["tdvp:objects-sharing-a-state-object"] += len(x["objects"]) - len({o["tree"] for o in x["objects"]})
                 continue
             par = x["parents"]
+            if x.get("prepare"):
+                self._count_prepare(c, "real", x["prepare"], par)
             if sum(1 for p in par if p == 0) == 1:
                 c["root-with-one-child"] += 1
             if sum(1 for p in par if p == 0) >= 3:
                 c["root-with-3+-children"] += 1
         return dict(c)
+
+    @staticmethod
+    def _count_prepare(c, kind, prep, par):
+        d = depth_profile(par)
+        x = prep["node"]
+        leaf = x not in par
+        c[kind + ":prepared-state"] += 1
+        c[kind + ":prepared-" + prep["how"]] += 1
+        c[kind + ":prepared-centre-" + ("root" if x == 0 else "deepest-leaf" if leaf and d[x] == max(d) else
+                                       "shallower-leaf" if leaf else "inner-node")] += 1
 
     def sample_repr(self, case):
         if case["kind"] == "tdvp":
@@ -506,8 +600,13 @@ class C17(Prop):
         dims = util.phys_dims(ttns)
         ham = util.rand_ham(rng, idsl, dims, 2, hermitian=True, max_support=2)
         ttno = util.TTNO.from_hamiltonian(copy.deepcopy(ham), ttns)
-        rt, _ = util.ttn_to_rtree(ttns, {k: nid(k) for k in ttns.nodes})
-        ob = {"rtree": rt}
+        ob = {}
+        if case.get("prepare"):
+            apply_prepare(ttns, case["prepare"], sid)
+            c = ttns.orthogonality_center_id
+            ob["centre"] = None if c is None else nid(c)
+        # (the ordered tree the finder and the cache see: canonicalisation may reorder the children of a node)
+        ob["rtree"] = util.ttn_to_rtree(ttns, {k: nid(k) for k in ttns.nodes})[0]
         up = [nid(x) for x in TDVPUpdatePathFinder(ttns).find_path()]
         ob["update"] = {"ok": {"path": up}}
         ob["structure"] = {str(nid(k)): [None if v.parent is None else nid(v.parent), [nid(c) for c in v.children]] for k, v in ttns.nodes.items()}
@@ -533,6 +632,7 @@ class C17(Prop):
             rec["keys"] = [[nid(a), nid(b)] for a, b in keys]
             c = tdvp.state.orthogonality_center_id
             rec["centre"] = None if c is None else nid(c)
+            rec["rtree_state"] = util.ttn_to_rtree(tdvp.state, {k: nid(k) for k in tdvp.state.nodes})[0]
             bad = []
             for a, b in keys:
                 node = tdvp.state.nodes.get(a)
@@ -572,10 +672,23 @@ class C17(Prop):
 
         def construct(o):
             ttns, ham, ttno = built[o["tree"]]
+            lab = case["trees"][o["tree"]]["labels"]
+            if "from" in o:       # the current state of an earlier object becomes the initial state of this one
+                src = live[o["from"]] if o["from"] < len(live) else None
+                if src is None:
+                    ob["objects"].append({"phases": [], "skipped": "the source object does not exist"})
+                    return None
+                ttns = src.state
             obs_op = util.TensorProduct({ttns.root_id: np.array([[1.0, 0.0], [0.0, -1.0]])})
             rec = {"phases": []}
             ob["objects"].append(rec)
             try:
+                if o.get("prepare"):
+                    apply_prepare(ttns, o["prepare"], lambda i: sid(lab[i]))
+                c = ttns.orthogonality_center_id
+                rec["initial_centre"] = None if c is None else nid(c)
+                # the ordered tree of the state that is handed in (canonicalisation may reorder the children of a node)
+                rec["rtree_in"] = util.ttn_to_rtree(ttns, {k: nid(k) for k in ttns.nodes})[0]
                 tdvp = util.make_evolution(o["algo"], ttns, ham, ttno, 0.05, 0.1, [obs_op])
             except Exception as e:  # noqa
                 rec["err"] = f"construction raised {type(e).__name__}: {e}"[:300]
@@ -640,7 +753,21 @@ class C17(Prop):
 
     def _model_expr(self, case, ob):
         if case["kind"] == "tdvp":
-            return coq_list(case["trees"], lambda tr: f"(let t := {util.coq_rtree(case_rtree(tr))} in (update_path t, tdvp_cache_keys t))")
+            per_tree = coq_list(case["trees"], lambda tr: f"(let t := {util.coq_rtree(case_rtree(tr))} in (update_path t, tdvp_cache_keys t))")
+            if not self._special_case(case):
+                return per_tree
+            # histories with prepared / taken-over states (state objects are shared, so every object of such a history): the
+            # library may have reordered the children of a node, so the model is evaluated on the ordered tree that was handed in
+            # (path) and on the one the object holds when the cache is built (keys)
+            items = []
+            for o, rec in zip(case["objects"], ob["objects"]):
+                if "rtree_in" not in rec:
+                    continue
+                keys = [f"cache_keys {util.coq_rtree(tuple_tree(ph['rtree_state']))} {cn(ph['path'][0])}"
+                        for ph in rec["phases"] if "err" not in ph and ph["path"]]
+                items.append(f"(update_path {util.coq_rtree(tuple_tree(rec['rtree_in']))}, "
+                             f"({coq_list(keys)} : list (option (list (nat * nat)))))")
+            return f"({per_tree}, ({coq_list(items)} : list (option (list nat) * list (option (list (nat * nat))))))"
         if case["kind"] == "real":
             tl = util.coq_rtree(tuple_tree(ob["rtree"]))
             return f"(let t := {tl} in (update_path t, tdvp_cache_keys t))"
@@ -681,6 +808,14 @@ class C17(Prop):
         parts.append(f"tdvp_cache_keys {t}")
         return f"(let t := {tl} in (" + ", ".join(parts) + "))"
 
+    @staticmethod
+    def _special(o):
+        return bool(o.get("prepare")) or "from" in o
+
+    @classmethod
+    def _special_case(cls, case):
+        return case["kind"] == "tdvp" and any(cls._special(o) for o in case["objects"])
+
     def model(self, ctx, cases, obs):
         exprs, idx, small = [], [], []
         for i, (c, ob) in enumerate(zip(cases, obs)):
@@ -691,7 +826,9 @@ class C17(Prop):
                 continue
             exprs.append(self._model_expr(c, ob))
             idx.append(i)
-        groups = [small[k:k + 10] for k in range(0, len(small), 10)]
+        plain = [i for i in small if not self._special_case(cases[i])]
+        spec = [i for i in small if i not in set(plain)]
+        groups = [plain[k:k + 10] for k in range(0, len(plain), 10)] + [spec[k:k + 10] for k in range(0, len(spec), 10)]
         for g in groups:
             exprs.append("[" + "; ".join(self._model_expr(cases[i], obs[i]) for i in g) + "]")
         vals = coq_eval(ctx, IMPORTS, exprs, prelude=PRELUDE, shard=12, scope="nat_scope")
@@ -718,16 +855,35 @@ class C17(Prop):
                 walk(case_rtree(tr), None)
                 if tob["structure"] != want:
                     return f"the state of tree {j} does not hold the tree that was built"
+            any_special = self._special_case(case)
+            mo_trees, mo_spec = (mo if any_special else (mo, []))
+            mo_spec = list(mo_spec)
             for j, (o, rec) in enumerate(zip(case["objects"], ob["objects"])):
-                up_m, keys_m = mo[o["tree"]]
+                up_m, keys_m = mo_trees[o["tree"]]
                 pm = None if up_m is None else list(up_m[1])
                 km = None if keys_m is None else [list(p) for p in keys_m[1]]
+                kms = None
+                if any_special and "rtree_in" in rec:
+                    # same rooted tree as the case (as an UNORDERED tree); model on the ordered trees the library holds
+                    def unordered(t):
+                        return (t[0], sorted(unordered(c) for c in t[1]))
+                    want_t = unordered(case_rtree(case["trees"][o["tree"]]))
+                    if unordered(tuple_tree(rec["rtree_in"])) != want_t:
+                        return f"TDVP object {j}: the state handed in does not hold the tree of the case: {rec['rtree_in']}"
+                    up_s, kms = mo_spec.pop(0)
+                    pm = None if up_s is None else list(up_s[1])
+                    kms = list(kms)
                 for ph in rec["phases"]:
                     where = f"TDVP object {j} ({o['algo']} on tree {o['tree']}) after {ph['after'] or 'construction'}"
                     if "err" in ph:
                         return f"{where}: observation raised {ph['err']}"
                     if ph["path"] != pm:
                         return f"{where}: update_path {ph['path']}, model {pm}"
+                    if kms is not None and ph["path"]:
+                        if unordered(tuple_tree(ph["rtree_state"])) != want_t:
+                            return f"{where}: the object's state does not hold the tree of the case: {ph['rtree_state']}"
+                        k1 = kms.pop(0)
+                        km = None if k1 is None else [list(p) for p in k1[1]]
                     if ph["keys"] != km:
                         return f"{where}: cache keys {ph['keys']}, model {km}"
                 if "err" in rec:
@@ -735,6 +891,9 @@ class C17(Prop):
             return None
         if case["kind"] == "real":
             up_m, keys_m = mo
+            want = {str(i): p for i, p in enumerate(case["parents"])}
+            if {k: v[0] for k, v in ob["structure"].items()} != want:
+                return "the state does not hold the tree that was built"
             if up_m is None or list(up_m[1]) != ob["update"]["ok"]["path"]:
                 return f"update path: impl {ob['update']['ok']['path']} model {up_m}"
             if "err" in ob["keys"]:
@@ -841,6 +1000,13 @@ class C17(Prop):
                 adj, root, parent = graph_of(tr)
                 who = (f"TDVP object {j} of {len(case['objects'])} created in this process ({o['algo']}, tree {case_rtree(tr)}, "
                        f"identifiers along the {case['scheme']} traversal)")
+                if "from" in o:
+                    who += f" whose initial state is the current state of object {o['from']} (after {case['objects'][o['from']]['ops']})"
+                if o.get("prepare"):
+                    who += ((", then prepared by " if "from" in o else " whose initial state was prepared by ") +
+                            self._prep_text(o["prepare"], tr["labels"]))
+                if rec.get("initial_centre") is not None:
+                    who += f" [orthogonality centre of the state handed in: {rec['initial_centre']}]"
                 for ph in rec["phases"]:
                     where = who + (f" after {ph['after']}" if ph["after"] else " after construction")
                     if "err" in ph:
@@ -870,7 +1036,11 @@ class C17(Prop):
             if not ob.get("shapes_ok", True):
                 return "a cached block is not a 3-leg tensor"
             up = ob["update"]["ok"]["path"]
-            return self._oracle_update_and_cache(adj, root, parent, up, [(up[0], [tuple(k) for k in ob["keys"]["ok"]])] if up else [])
+            w = self._oracle_update_and_cache(adj, root, parent, up, [(up[0], [tuple(k) for k in ob["keys"]["ok"]])] if up else [])
+            if w and case.get("prepare"):
+                w = (f"TDVPUpdatePathFinder on a state prepared by {self._prep_text(case['prepare'], list(range(len(par))))} "
+                     f"[orthogonality centre {ob.get('centre')}], tree {tuple_tree(ob['rtree'])}: {w}")
+            return w
         adj, root, parent = graph_of(case)
         nodes = set(adj)
         if case["kind"] == "malformed":
@@ -940,6 +1110,15 @@ class C17(Prop):
                 return f"init_cache_but_one(left_out={x}) raised {k['err']}"
             keysets.append((x, [tuple(p) for p in k["ok"]]))
         return self._oracle_update_and_cache(adj, root, parent, up, keysets)
+
+    @staticmethod
+    def _prep_text(prep, lab):
+        m = "SplitMode." + prep["mode"]
+        if prep["how"] in ("canonical_form", "orthogonalize"):
+            return f"{prep['how']}({lab[prep['node']]}, {m})"
+        via = prep["via"] if prep["how"] == "move_chain" else prep["via"][:1]
+        return (f"canonical_form({lab[via[0]]}, {m}) + move_orthogonalization_center to " +
+                ", ".join(str(lab[x]) for x in via[1:] + [prep["node"]]))
 
     def classify(self, case, what, known):
         return None
